@@ -1,3 +1,128 @@
+(* C10 - Untyped queries pass through unchanged; refusals are explicit.
+   Only statements here; proofs live in Proofs/TypeFollowUntyped.v.
+
+   [follow W G e] is the model of remap_by_types (Model/TypeFollow.v) and [stream_op W op G0 item lam] the model of
+   ObjectStream.Select / SelectMany / Where called with the lambda [lam] on a stream of [item]s; both with
+   fixes/F11, F12, F21 applied (the table flags [unary_uses_lookup], [param_call_guarded] are read from the source on
+   every run; with the unfixed source these files stop compiling).  [lib_world ct cbs] is ANY class table and ANY
+   callback table together with the library's own registered functions [ft_default] (regenerated from the source).
+
+   [expr_grammar] is the grammar of the property: names, attributes, calls with positional and keyword arguments,
+   subscripts, unary / binary / boolean / comparison operators, conditionals, tuples, lists, dictionaries with arbitrary
+   string keys, nested lambdas, and every other node class ([Other]).  Its three restrictions:
+     - a call of [abs]/[len] does not pass their parameter by keyword without a positional argument;
+     - keyword names and values of a call come in equal numbers (what Python's parser produces);
+     - a call whose callee is a subscript of an attribute, [v.a[s](...)], has an untyped [v] (a name, attribute or
+       subscript chain from the lambda parameter).  Residual of F21, reported: [{'a': e.x}.a[0](1)] and [(1).x[0](2)]
+       still raise AttributeError - the call is taken for a parameterized property on a typed object, and that
+       behaviour is pinned for user classes by test_index_callback_bad_prop.
+   Builtin classes (str, int, ...) are not in a class table: their methods called on constants are outside the model. *)
 From FA.Base Require Import PyAst Value.
+From FA.Gen Require Import TablesTypes.
 From FA.Model Require Import TypeDefs TypeFollow.
 From FA.Proofs Require Import TypeFollowFacts TypeFollowUntyped.
+
+(* the type follower, on an expression whose only typed name is the lambda parameter (typed Any), returns the
+   expression structurally unchanged and fires nothing; or refuses with a designed reason; never an internal error *)
+Theorem untyped_passthrough : forall (ct : classtab) (cbs : cbtab) (p : string) (e : expr),
+  expr_grammar (lib_world ct cbs) [(p, TAny)] e = true ->
+  match follow (lib_world ct cbs) [(p, TAny)] e with
+  | Ok (e', t, ev) => e' = e /\ ev = []
+  | Refuse r => designed ft_default r e
+  | Crash _ => False
+  end.
+Proof. exact untyped_passthrough_default. Qed.
+Print Assumptions untyped_passthrough.
+
+(* the same through the three stream operators: the emitted lambda is the one given; the refusals are the designed
+   ones (while following the body, a non-transportable constant, a non-boolean Where filter) *)
+Theorem untyped_stream_ops : forall (ct : classtab) (cbs : cbtab) (op : opkind) (p : string) (b : expr),
+  stream_operator op -> expr_grammar (lib_world ct cbs) [(p, TAny)] b = true ->
+  match stream_op (lib_world ct cbs) op [] TAny (Lambda [p] b) with
+  | Ok (lam, t, ev) => lam = Lambda [p] b /\ ev = []
+  | Refuse r => designed_op ft_default op r p b
+  | Crash _ => False
+  end.
+Proof. exact untyped_stream_ops_default. Qed.
+Print Assumptions untyped_stream_ops.
+
+(* comparison and and/or bodies are typed bool in every class model, environment and operand position ... *)
+Theorem where_bool_shapes : forall (W : world) (G : tenv) (b e' : expr) (t : ty) (ev : list event),
+  bool_shape b = true -> follow W G b = Ok (e', t, ev) -> t = TBool.
+Proof. exact where_bool_shapes_x. Qed.
+Print Assumptions where_bool_shapes.
+
+(* ... so Where emits them unchanged and keeps the item type; the gate is never what refuses *)
+Theorem untyped_where_keeps_bool_bodies : forall (ct : classtab) (cbs : cbtab) (p : string) (b : expr),
+  bool_shape b = true -> expr_grammar (lib_world ct cbs) [(p, TAny)] b = true ->
+  match stream_op (lib_world ct cbs) OpWhere [] TAny (Lambda [p] b) with
+  | Ok (lam, t, ev) => lam = Lambda [p] b /\ t = TAny /\ ev = []
+  | Refuse r => designed ft_default r b \/ (r = RBadConst /\ check_ast (Lambda [p] b) = false)
+  | Crash _ => False
+  end.
+Proof. exact untyped_where_bool. Qed.
+Print Assumptions untyped_where_keeps_bool_bodies.
+
+(* the general form: any registered functions without defaults or processors, any environment of plain types *)
+Theorem untyped_passthrough_general : forall (W : world) (G : tenv) (e : expr),
+  ft_plain (w_ft W) -> Forall (fun xt => simple (snd xt)) G -> expr_grammar W G e = true ->
+  match follow W G e with
+  | Ok (e', t, ev) => e' = e /\ ev = [] /\ simple t
+  | Refuse r => designed (w_ft W) r e
+  | Crash _ => False
+  end.
+Proof. exact untyped_passthrough_x. Qed.
+Print Assumptions untyped_passthrough_general.
+
+(* ---------- non-vacuity: concrete expressions meet the hypotheses; each branch of the statement is inhabited ---------- *)
+
+Definition W0 : world := lib_world [] [].
+Definition e_ := Name "e".
+Definition mcall (v : expr) (m : string) (args : list expr) := Call (Attr v m) args [] [].
+
+(* lambda e: -e.x   (the F11 witness) *)
+Example unary_on_attribute :
+  expr_grammar W0 [("e", TAny)] (UnaryOp USub (Attr e_ "x")) = true /\
+  follow W0 [("e", TAny)] (UnaryOp USub (Attr e_ "x")) = Ok (UnaryOp USub (Attr e_ "x"), TAny, []).
+Proof. split; vm_compute; reflexivity. Qed.
+
+(* lambda e: {'a b': e.x, 'class': 1}['a b']   (the F12 witness) and a dictionary with identifier keys *)
+Example odd_dictionary_keys :
+  let d := Dict [Const (CStr "a b"); Const (CStr "class")] [Attr e_ "x"; Const (CInt 1)] in
+  expr_grammar W0 [("e", TAny)] (Subscript d (Const (CStr "a b"))) = true /\
+  follow W0 [("e", TAny)] (Subscript d (Const (CStr "a b"))) = Ok (Subscript d (Const (CStr "a b")), TAny, []) /\
+  follow W0 [("e", TAny)] (Attr (Dict [Const (CStr "n")] [Const (CInt 1)]) "n")
+    = Ok (Attr (Dict [Const (CStr "n")] [Const (CInt 1)]) "n", TInt, []).
+Proof. repeat split; vm_compute; reflexivity. Qed.
+
+(* lambda e: e.x[0](1)   (the F21 witness), and a method call with a nested lambda on an untyped object *)
+Example call_of_subscripted_attribute :
+  let q := Call (Subscript (Attr e_ "x") (Const (CInt 0))) [Const (CInt 1)] [] [] in
+  let s := mcall (Attr e_ "jets") "Select" [Lambda ["value"] (UnaryOp UNot (Attr (Name "value") "value"))] in
+  expr_grammar W0 [("e", TAny)] q = true /\ follow W0 [("e", TAny)] q = Ok (q, TAny, []) /\
+  expr_grammar W0 [("e", TAny)] s = true /\ follow W0 [("e", TAny)] s = Ok (s, TAny, []).
+Proof. repeat split; vm_compute; reflexivity. Qed.
+
+(* designed refusals really occur, each with its site *)
+Example refusals_occur :
+  follow W0 [("e", TAny)] (IfExp (Attr e_ "a") (Const (CInt 1)) (Const (CStr "a"))) = Refuse RIfExp /\
+  follow W0 [("e", TAny)] (Subscript (Tuple [Attr e_ "a"; Attr e_ "b"]) (Attr e_ "i")) = Refuse RTupleIndex /\
+  follow W0 [("e", TAny)] (Subscript (Tuple [Attr e_ "a"; Attr e_ "b"]) (Const (CInt 2))) = Refuse RTupleRange /\
+  follow W0 [("e", TAny)] (Attr (Dict [Const (CStr "a")] [Attr e_ "x"]) "b") = Refuse RDictKey /\
+  follow W0 [("e", TAny)] (Subscript (Dict [Const (CStr "a")] [Attr e_ "x"]) (Const (CStr "b"))) = Refuse RRecordKey /\
+  follow W0 [("e", TAny)] (Call (Name "abs") [] [] []) = Refuse (RMissingArg "x") /\
+  stream_op W0 OpWhere [] TAny (Lambda ["e"] (Attr e_ "x")) = Refuse RWhereNotBool /\
+  stream_op W0 OpSelect [] TAny (Lambda ["e"] (Const CNone)) = Refuse RBadConst.
+Proof. repeat split; vm_compute; reflexivity. Qed.
+
+Example where_on_comparison :
+  let b := BoolOp And [Compare (Attr e_ "x") [CGt] [Const (CInt 1)]; UnaryOp UNot (Attr e_ "b")] in
+  bool_shape b = true /\ expr_grammar W0 [("e", TAny)] b = true /\
+  stream_op W0 OpWhere [] TAny (Lambda ["e"] b) = Ok (Lambda ["e"] b, TAny, []).
+Proof. repeat split; vm_compute; reflexivity. Qed.
+
+(* the restriction on calls of subscripted attributes is needed: outside it the fixed code still fails *)
+Example residual_outside_grammar :
+  let q := Call (Subscript (Attr (Dict [Const (CStr "a")] [Attr e_ "x"]) "a") (Const (CInt 0))) [Const (CInt 1)] [] [] in
+  expr_grammar W0 [("e", TAny)] q = false /\ follow W0 [("e", TAny)] q = Crash CkAttr.
+Proof. split; vm_compute; reflexivity. Qed.
